@@ -95,7 +95,6 @@ template <integral Int, to_integer_options Options = to_integer_options{}>
 [[nodiscard]] constexpr auto to_integer(string_view str, Int base = Int(10)) noexcept -> to_integer_result<Int>
 {
     auto const length        = str.size();
-    auto const wouldOverflow = detail::overflow_checker<Int, Options.check_overflow>{base};
     auto const makeError     = [str](auto err) { return to_integer_result<Int>{.end = str.data(), .error = err}; };
     auto const parseDigit    = [](int ch) -> Int {
         if (etl::isdigit(ch) != 0) {
@@ -141,6 +140,19 @@ template <integral Int, to_integer_options Options = to_integer_options{}>
         }
     }
 
+    // base 0: octal, decimal or hexadecimal, depending on the prefix
+    if (base == Int(0)) {
+        base = Int(10);
+        if (str[pos] == '0') {
+            base = Int(8);
+            if (length - pos > 2 and (str[pos + 1] == 'x' or str[pos + 1] == 'X')) {
+                if (parseDigit(static_cast<int>(str[pos + 2])) < Int(16)) {
+                    base = Int(16);
+                }
+            }
+        }
+    }
+
     // optional "0x" or "0X" in front of a hexadecimal number
     if constexpr (Options.allow_hex_prefix) {
         if (base == Int(16) and length - pos > 2 and str[pos] == '0' and (str[pos + 1] == 'x' or str[pos + 1] == 'X')) {
@@ -166,6 +178,7 @@ template <integral Int, to_integer_options Options = to_integer_options{}>
     }
 
     // loop over rest of digits
+    auto const wouldOverflow = detail::overflow_checker<Int, Options.check_overflow>{base};
     for (; pos != length; ++pos) {
         auto const digit = parseDigit(static_cast<int>(str[pos]));
         if (digit >= base) {
